@@ -1289,6 +1289,19 @@ def check_list(ctx, classes, arity_rule=None):
                 items = t[1][2]
             elif t[0] == 'L':
                 items = [t]
+            elif t[0] == 'F':
+                # always-deny stands for an entry that is neither a string
+                # nor a sequence (what `['!']` stands for in the same place)
+                malformed = [c for c in p.conds if c.kind == 'test' and
+                             not c.pol and isinstance(c.expr, ast.Call)
+                             and U(c.expr.func) == 'isinstance' and
+                             c.expr.args and isinstance(
+                                 c.expr.args[0], ast.Name) and
+                             c.expr.args[0].id == entry]
+                if len(malformed) >= 2:
+                    return True, ''
+                return False, 'a well-formed entry is translated to ' \
+                    'always-deny'
             elif t[0] == 'or':
                 return False, 'the members of an entry are joined by a ' \
                     'check with \'or\' semantics'
